@@ -148,12 +148,12 @@ class C10(Check):
         ev = stack.Events()
         flight: List[List[Any]] = []
 
-        def probe(request, context, handler):
+        def probe(request, cx, handler):
             # a middleware written as a PLAIN function that returns the next handler's awaitable (allowed by the middleware type):
             # its entry part runs when the dispatcher calls the handler, not when the result is awaited
             tag = request.params.get('tag') if isinstance(request.params, dict) else None
             flight.append(['begin', tag])
-            inner = handler(request, context)
+            inner = handler(request, cx)
 
             async def finish():
                 try:
